@@ -100,7 +100,7 @@ def write_history(revs: List[Rev], plans: List[Plan], eol: bytes = b"\n", entry_
     def emit_obj(n: int, val: Any, gen: int, desc: Dict[str, Any]) -> int:
         pos = len(out)
         out.extend(ser_indirect(n, val, gen, eol))
-        d = {"pos": pos, "n": n, "gen": gen}
+        d = {"pos": pos, "n": n, "gen": gen, "end": len(out) - len(eol)}
         d.update(desc)
         objects.append(d)
         return pos
@@ -133,9 +133,11 @@ def write_history(revs: List[Rev], plans: List[Plan], eol: bytes = b"\n", entry_
         for c, g in containers:
             bodies = [ser(rev.defs[n]) for n in g]
             first_pairs = []
+            pair_nums: List[int] = []
             off = 0
             for n, b in zip(g, bodies):
                 first_pairs.append(b"%d %d" % (n, off))
+                pair_nums += [n, off]
                 off += len(b) + 1
             head = b" ".join(first_pairs) + b" " * (1 + plan.first_pad)
             data = head + b" ".join(bodies)
@@ -145,7 +147,7 @@ def write_history(revs: List[Rev], plans: List[Plan], eol: bytes = b"\n", entry_
                 raw = zlib.compress(data)
                 d["Filter"] = "FlateDecode"
             offs[c] = (emit_obj(c, Stream(d, raw), 0,
-                                {"kind": "objstm", "N": len(g), "nums": list(g),
+                                {"kind": "objstm", "N": len(g), "nums": list(g), "pairs": pair_nums,
                                  "vals": [rev.defs[n] for n in g], "rev": k,
                                  "val": Stream({"Type": "ObjStm", "N": len(g), "First": len(head)}, data)}), 0)
             aux_nums.append(c)
